@@ -295,7 +295,7 @@ def summarize(m):
 # ---------------------------------------------------------------- known findings / verdicts
 
 def load_known():
-    p = os.path.join(VERIF, "known_findings.json")
+    p = os.environ.get("VERIF_KNOWN_FILE", os.path.join(VERIF, "known_findings.json"))
     if not os.path.exists(p):
         return []
     return json.load(open(p))
